@@ -177,9 +177,10 @@ def emit(tables, outdir):
             flags = "%s %s" % ("true" if tb["rg"] else "false", "true" if tb["rh"] else "false")
             if "tensor" in tb:
                 # 3-D hypercube: only the factorisation into the 1-D table + the samples of the real evaluator
-                o.append("def %s : BasisTab := tensorTab FeatModel.Gen.BasisH1.%s %d %s" % (f, f, dim, flags))
+                o.append("def %s_idx : List (List Nat) :=" % f)
                 o.append("  [" + ", ".join("[" + ", ".join(str(a) for a in ix) + "]" for ix in tb["tensor"]) + "]")
-                o.append("  %s_samples" % f)
+                o.append("def %s : BasisTab := tensorTab FeatModel.Gen.BasisH1.%s %d %s %s_idx %s_samples" % (
+                    f, f, dim, flags, f, f))
                 o.append("")
                 continue
             for i in range(nl):
